@@ -45,13 +45,16 @@ func Address(bank int) {
 	romCh := !vp.BytesEqual(S.ROM[:], shadowROM)
 	wramCh := !vp.BytesEqual(S.WRAM[:], shadowWRAM)
 	sramCh := !vp.BytesEqual(S.SRAM[:], shadowSRAM)
-	if !romCh && !wramCh && !sramCh {
-		vp.Reach("console-register-area")
-		return // backed by neither ROM, SRAM nor WRAM (hardware registers)
-	}
 	p, err := lorom.BusAddressToPak(a)
 	if err != nil {
 		vp.Reach("mapper-unmapped")
+		return
+	}
+	if !romCh && !wramCh && !sramCh {
+		// the console serves this address from something that is none of the three arrays (hardware
+		// registers) although the mapper assigns it a memory class: a different class than assigned
+		vp.Assert("console-backs-mapper-memory-with-that-memory", false)
+		vp.Reach("console-register-area")
 		return
 	}
 	class := cartmap.ClassOfPak(p)
